@@ -158,6 +158,7 @@ scanIsContinued(String line)
  *****************************************************************************/
 
 # define ESC_CHAR      '_'		/* Changes meaning of next char. */
+# define scanDigitValue(c) ((ULong) (isdigit(c) ? (c) - '0' : (c) - 'A' + 10))
 # define tokCoError(p,e,m)		tokError(p, e, comsgString(m))
 
 typedef enum {
@@ -500,10 +501,10 @@ local Token
 scanNumber(void)
 {
 	int	c, nd, rpos = 0;
-	Bool	hasradix, haspoint, hasexpon;
+	Bool	hasradix, haspoint, hasexpon, badDigit = false;
 	SrcPos	spos, epos = 0;
 	String	s;
-	ULong	rad;
+	ULong	rad = 10;
 
 	c  = scPeekChar();
 
@@ -552,9 +553,13 @@ scanNumber(void)
 
 		/* That was the radix part, still need whole part. */
 		for (nd = 0; isdigit(c = scPeekChar()) || isupper(c); nd++) {
-			/* Ought to check that digit < rad */
+			if (scanDigitValue(c) >= rad) badDigit = true;
 			scAddChar(c);
 			scAdvance();
+		}
+		if (badDigit) {
+			epos = scEndTok();
+			return tokCoError(spos, epos, ALDOR_E_ScanBadAftRad);
 		}
 	}
 
@@ -605,8 +610,13 @@ scanNumber(void)
 			isdigit(c = scPeekChar()) || (hasradix&&isupper(c));
 			nd++ )
 		{
+			if (hasradix && scanDigitValue(c) >= rad) badDigit = true;
 			scAddChar(c);
 			scAdvance();
+		}
+		if (badDigit) {
+			epos = scEndTok();
+			return tokCoError(spos, epos, ALDOR_E_ScanBadAftRad);
 		}
 	}
 
